@@ -88,8 +88,19 @@ func NewDB(conn *sql.DB, schema *Schema) *DB {
 				return nil, err
 			}
 			defer res.Close()
-			rows, err := db.Schema.ParseRows(selectQuery, res)
-			if err != nil {
+			// Remember which columns of each row held NULL: a NULL compares equal to
+			// no filter value, not to the zero value it is decoded as.
+			var rows []interface{}
+			var nullColumns [][]*Column
+			for res.Next() {
+				row, nulls, err := parseQueryRowWithNulls(table, res)
+				if err != nil {
+					return nil, err
+				}
+				rows = append(rows, row)
+				nullColumns = append(nullColumns, nulls)
+			}
+			if err := res.Err(); err != nil {
 				return nil, err
 			}
 
@@ -104,8 +115,11 @@ func NewDB(conn *sql.DB, schema *Schema) *DB {
 				matcher.add(i, table.comparableValues(query.Filter))
 			}
 			results := make([][]interface{}, len(items))
-			for _, row := range rows {
+			for rowIdx, row := range rows {
 				f := table.comparableValues(table.extractRow(row))
+				for _, column := range nullColumns[rowIdx] {
+					f[column.Name] = nil
+				}
 				for _, idx := range matcher.match(f) {
 					i := idx.(int)
 					results[i] = append(results[i], row)
